@@ -17,3 +17,13 @@ Definition c15_mine_block_assemble := Bits.Model.MineBlock.mine_block_assemble.
 Definition c15_spec_merkle := Bits.Spec.Merkle.merkle.
 Definition c15_spec_subsidy := Bits.Spec.Subsidy.subsidy.
 Definition c15_spec_push_int := Bits.Spec.ScriptNum.push_int.
+(* ---- extension (Props/C15Ext.v): target_threshold, median_time, genesis_* ---- *)
+Require Bits.Model.Target Bits.Model.MedianTime Bits.Model.Genesis Bits.Model.Difficulty Bits.Spec.Target.
+Definition c15_target_threshold := Bits.Model.Target.target_threshold.
+Definition c15_median_time := Bits.Model.MedianTime.median_time.
+Definition c15_genesis_coinbase_tx := Bits.Model.Genesis.genesis_coinbase_tx.
+Definition c15_genesis_block := Bits.Model.Genesis.genesis_block.
+(* Bitcoin Core's SetCompact (the SPECIFICATION): (value, negative, overflow) *)
+Definition c15_spec_setcompact (c : BinNums.Z) :=
+  (Bits.Spec.Target.sc_value c, Bits.Spec.Target.sc_negative c, Bits.Spec.Target.sc_overflow c).
+Definition c15_difficulty := Bits.Model.Difficulty.difficulty.
